@@ -50,6 +50,9 @@ type c04Scenario struct {
 	// expect, if set, is an absolute oracle on top of the serial replay (which runs on lungo itself and would share a
 	// purely sequential defect): it returns what is wrong with the results and the final contents, or ""
 	expect func(calls []*c04Call, final string) string
+	// onlyExpect: the scenario is decided by expect alone (its calls include the commit of the shared transaction, which
+	// the serial replay has no counterpart for)
+	onlyExpect bool
 }
 
 func c04Find(w *world.World, ctx context.Context, filter bson.D) string {
@@ -154,6 +157,16 @@ func c04Scenarios() []*c04Scenario {
 		return &c04Op{name: "FindOneAndUpdate($inc n, rejected projection)", write: true, owns: func(string) bool { return false }, run: func(w *world.World, ctx context.Context) string {
 			err := w.C("d", "c").FindOneAndUpdate(ctx, bD("_id", int32(1)), bD("$inc", bD("n", int32(100))), options.FindOneAndUpdate().SetProjection(bD("n", int32(1), "tag", int32(0)))).Err()
 			return world.ErrClass(err)
+		}}
+	}
+	// the commit of the session transaction the threads of a scenario share, issued by one of them
+	commitShared := func() *c04Op {
+		return &c04Op{name: "CommitTransaction (shared session)", write: true, owns: func(string) bool { return false }, run: func(w *world.World, ctx context.Context) string {
+			v, ok := c04Sessions.Load(w)
+			if !ok {
+				return "no session"
+			}
+			return "commit=" + world.ErrClass(v.(lungo.ISession).CommitTransaction(w.Ctx))
 		}}
 	}
 	touch := func(tag string) *c04Op {
@@ -407,6 +420,23 @@ func c04Scenarios() []*c04Scenario {
 				return ""
 			}},
 		{name: "S9 two threads sharing one session transaction", setup: seed(d1), threads: [][]*c04Op{{ins("x", 2)}, {ins("y", 3)}}, txn: []bool{true, true}},
+		{name: "S9c two threads sharing one session transaction, one of them commits it while the other still writes", setup: seed(d1), threads: [][]*c04Op{{ins("x", 2), ins("y", 3)}, {commitShared()}}, txn: []bool{true, true}, onlyExpect: true,
+			expect: func(calls []*c04Call, final string) string {
+				for _, c := range calls {
+					if !strings.HasPrefix(c.op.name, "InsertOne") {
+						continue
+					}
+					id := strings.TrimSuffix(strings.TrimPrefix(c.op.name, "InsertOne({_id:"), "})")
+					present := strings.Contains(final, `{"$numberInt":"`+id+`"},"tag"`)
+					if strings.HasPrefix(c.result, "ok") && !present {
+						return c.op.name + " through the session's context was acknowledged (" + c.result + ") and the document is nowhere: " + final
+					}
+					if strings.HasPrefix(c.result, "err") && present {
+						return c.op.name + " returned an error and the document is there: " + final
+					}
+				}
+				return ""
+			}},
 		{name: "S9b two threads sharing one session transaction, one call rejected after its write", setup: seed(d1), threads: [][]*c04Op{{foauBad(), foauBad()}, {ins("y", 3), ins("z", 4)}}, txn: []bool{true, true},
 			expect: func(calls []*c04Call, final string) string {
 				for _, c := range calls {
@@ -451,6 +481,7 @@ func c04Run(sc *c04Scenario, prefix, expectN []int) (*sched.Result, []*c04Call, 
 				panic(err)
 			}
 			sharedSess = sess
+			c04Sessions.Store(w, sess)
 			_ = lungo.WithSession(w.Ctx, sess, func(sctx lungo.ISessionContext) error { sharedCtx = sctx; return nil })
 		}
 		for ti, ops := range sc.threads {
@@ -504,7 +535,11 @@ func c04Run(sc *c04Scenario, prefix, expectN []int) (*sched.Result, []*c04Call, 
 			})
 		}
 		x.Await("join", func() bool { return done == nthreads })
-		if shared {
+		if shared && strings.HasPrefix(sc.name, "S9c") {
+			// (the transaction is committed by one of the threads)
+			sharedSess.EndSession(w.Ctx)
+			c04Sessions.Delete(w)
+		} else if shared {
 			if err := sharedSess.CommitTransaction(w.Ctx); err != nil {
 				for _, c := range calls {
 					c.result += " txn-error"
@@ -674,6 +709,14 @@ func c04Check(r violator, sc *c04Scenario, res *sched.Result, calls []*c04Call, 
 	if sc.expect != nil {
 		if msg := sc.expect(calls, final); msg != "" {
 			r.Violation("absolute-expectation:"+tag, sc.name+": "+msg+"; schedule "+res.Schedule(), rep)
+			return
+		}
+		if sc.onlyExpect {
+			var o []string
+			for _, c := range calls {
+				o = append(o, c.result)
+			}
+			outcomes[strings.Join(o, " ; ")+" => "+final] = true
 			return
 		}
 	}
